@@ -13,7 +13,7 @@ SHARDS = {'quick': 8, 'thorough': 16}
 RULE = ('One solved 2- or 3-component PRISM object (C01 generator without MS, fatol 1e-10, density ladder) per history. A Hypothesis '
         'RuleBasedStateMachine applies up to 20 (thorough 30) operations from {pair_correlation, structure_factor(normalize=T|F), pmf, '
         'second_virial(extrapolate=T|F), chi(T|F), spinodal_condition(T|F), solvation_potential(HNC|PY), user transform of totalCorr / '
-        'directCorr / omega to the other space, solve(guess=own x) while omega is in Fourier space}. After every operation the returned '
+        'directCorr / omega to the other space, solve(guess=own x) while omega is in Fourier space, a calculate call (after an optional user transform) on a SECOND PRISM object created from the same System and solved from the same root}. After every operation the returned '
         'value is compared with the value the same call returns on a fresh, identically solved object on which nothing else was called '
         '(1e-9 of the function scale before any re-solve, 1e-6 after one; pmf where g > 1e-3), no exception is tolerated, and omega / '
         'totalCorr / directCorr brought to a common space on copies must equal the post-solve snapshot, and the last four returned objects must still hold the values '
@@ -34,10 +34,10 @@ CALLS = [('pair_correlation', {}), ('structure_factor', {'normalize': True}), ('
 ARRAYS = ['totalCorr', 'directCorr', 'omega']
 
 
-def solve_fresh(spec):
-    """ladder solve to full density; returns the PRISM object or None"""
+def solve_fresh(spec, keep=None):
+    """ladder solve to full density; returns the PRISM object or None (keep: list that receives the System objects used)"""
     last = None
-    for scale, pr, res in S.solve_ladder(spec, fatol=1e-10, maxiter=100):
+    for scale, pr, res in S.solve_ladder(spec, fatol=1e-10, maxiter=100, on_system=(keep.append if keep is not None else None)):
         if res is None or not res.success:
             return None
         last = (scale, pr)
@@ -82,7 +82,10 @@ class State(object):
 
 def start(spec, out, sig):
     st_ = State()
-    pr = solve_fresh(spec)
+    systems = []
+    pr = solve_fresh(spec, keep=systems)
+    st_.system = systems[-1] if systems else None     # the caller's System the primary object was created from
+    st_.sibling = None
     if pr is None:
         out.skipped = 'not-converged'
         return None
@@ -243,6 +246,53 @@ def do_resolve(st_, out, sig):
     check_stored_are_root(st_, out, sig)
 
 
+def do_sibling(st_, op, out, sig):
+    """a SECOND PRISM object created from the same System, solved from the primary's solution and post-processed: objects created
+    from one System are independent, so nothing about the primary object (its arrays, the values it returned, the values it will
+    return -- all checked by the invariant and by later calls) may change"""
+    P = target()
+    if st_.sibling is None:
+        sib = S.quiet(st_.system.createPRISM)
+        try:
+            res = S.quiet(sib.solve, guess=np.array(st_.fresh.minimize_result.x), method='krylov', options=S.solver_options('krylov', 1e-10, 100))
+        except Exception as exc:   # noqa
+            out.fail(sig + 'sibling/raises-' + type(exc).__name__, 'solve of a second PRISM object of the same System raised %s: %s' % (type(exc).__name__, exc))
+            return
+        if not res.success:
+            st_.called.append('sibling:not-converged')
+            return
+        st_.sibling = sib
+    sib = st_.sibling
+    if op.get('transform', 3) < 3:
+        ma = getattr(sib, ARRAYS[op['transform']])
+        S.quiet(sib.sys.domain.MatrixArray_to_fourier if ma.space == P.Space.Real else sib.sys.domain.MatrixArray_to_real, ma)
+    name, kw = CALLS[op['which'] % len(CALLS)]
+    ref = reference(st_, name, kw)
+    try:
+        got = as_arrays(S.quiet(getattr(P.calculate, name), sib, **kw), st_.types)
+    except Exception as exc:   # noqa
+        out.fail(sig + name + '/raises-' + type(exc).__name__, '%s(%s) on a second PRISM object of the same System raised %s: %s' % (name, kw, type(exc).__name__, exc))
+        return
+    st_.called.append('sibling:' + name)
+    st_.nsibling = getattr(st_, 'nsibling', 0) + 1
+    floor = natural_scale(st_, name)
+    mask = (reference(st_, 'pair_correlation', {})['data'] > 1e-3) if name == 'pmf' else None
+    for k, r in ref.items():
+        if k not in got or got[k].shape != r.shape:
+            out.fail(sig + name + '/result-shape', '%s(%s) on a second PRISM object: entry %s missing or of different shape' % (name, kw, k))
+            return
+        m = np.ones(r.shape, dtype=bool) if mask is None else mask
+        with np.errstate(all='ignore'):
+            fin = np.isfinite(r) & m
+            scale = max(float(np.max(np.abs(r[fin]))) if np.any(fin) else 0.0, floor) + 1e-300
+            bad = fin & ~(np.abs(got[k] - r) <= 1e-6 * scale)
+        if np.any(bad):
+            idx = tuple(int(v) for v in np.argwhere(bad)[0])
+            out.fail(sig + name + '/second-object-differs', '%s(%s)[%s] = %r on a second PRISM object of the same System (solved from the same root) but %r on a fresh object; history %s' % (
+                name, kw, k, float(got[k][idx]), float(r[idx]), st_.called[-8:]))
+            return
+
+
 def invariant(st_, out, sig):
     for label, raw, snap in getattr(st_, 'kept', []):
         now = as_arrays(raw, st_.types)
@@ -273,6 +323,9 @@ def apply_op(st_, op, out, sig):
     elif kind == 'resolve':
         if can_resolve(st_):
             do_resolve(st_, out, sig)
+    elif kind == 'sibling':
+        if st_.system is not None:
+            do_sibling(st_, op, out, sig)
     if not out.violations:
         invariant(st_, out, sig)
 
@@ -292,7 +345,8 @@ class Histories(History):
         return c06_system(tier)
 
     def ops(self, tier):
-        return {'call': {'which': st.integers(0, len(CALLS) - 1)}, 'transform': {'which': st.integers(0, 2)}, 'resolve': {}}
+        return {'call': {'which': st.integers(0, len(CALLS) - 1)}, 'transform': {'which': st.integers(0, 2)}, 'resolve': {},
+                'sibling': {'which': st.integers(0, len(CALLS) - 1), 'transform': st.integers(0, 3)}}
 
     def init(self, params, out):
         return start(params, out, PID + '/')
@@ -326,9 +380,9 @@ class Histories(History):
     def finish(self, state, trace, out):
         if state is None:
             return
-        fns = [c for c in state.called if not c.startswith('transform') and c != 'resolve']
+        fns = [c for c in state.called if not c.startswith('transform') and not c.startswith('sibling') and c != 'resolve']
         repeat = len(fns) != len(set(fns))
-        out.nontrivial = len(set(fns)) >= 2 and (repeat or state.ntransform > 0 or state.resolved > 0)
+        out.nontrivial = len(set(fns)) >= 2 and (repeat or state.ntransform > 0 or state.resolved > 0 or getattr(state, 'nsibling', 0) > 0)
         out.label('rank=%d' % len(state.types))
         if repeat:
             out.label('repeat')
@@ -336,6 +390,8 @@ class Histories(History):
             out.label('user-transform')
         if state.resolved:
             out.label('resolve')
+        if getattr(state, 'nsibling', 0):
+            out.label('second-object-post-processed')
         for c in set(fns):
             out.label('fn=' + c)
 
@@ -358,13 +414,14 @@ FIXED = [
                    '1,1': ['HardSphere', {}], '1,2': ['WeeksChandlerAndersen', {'epsilon': 0.5}], '2,2': ['HardSphere', {}]},
      'closure': {'0,0': ['PY', False], '0,1': ['PY', False], '0,2': ['PY', False], '1,1': ['PY', False], '1,2': ['PY', True], '2,2': ['PY', False]}},
 ]
-ALPHABET = ([{'op': 'call', 'which': i} for i in range(len(CALLS))] + [{'op': 'transform', 'which': i} for i in range(3)] + [{'op': 'resolve'}])
+ALPHABET = ([{'op': 'call', 'which': i} for i in range(len(CALLS))] + [{'op': 'transform', 'which': i} for i in range(3)] + [{'op': 'resolve'}]
+            + [{'op': 'sibling', 'which': 1, 'transform': 3}, {'op': 'sibling', 'which': 0, 'transform': 0}])
 
 
 class Pairs(Sub):
     name = 'pairs'
     kind = 'enum'
-    doc = 'exhaustive: every ordered pair of operations (12 call variants, 3 user transforms, re-solve) on three fixed 2-/3-component systems'
+    doc = 'exhaustive: every ordered pair of operations (12 call variants, 3 user transforms, re-solve, 2 second-object post-processing steps) on three fixed 2-/3-component systems'
     budget = {'quick': 0, 'thorough': 0}
 
     def __init__(self, hist):
@@ -396,7 +453,7 @@ class Pairs(Sub):
         st_ = State()
         st_.__dict__.update(base.__dict__)
         st_.pr = copy.deepcopy(base.fresh)
-        st_.resolved, st_.called, st_.ntransform, st_.omega_touched, st_.kept = 0, [], 0, False, []
+        st_.resolved, st_.called, st_.ntransform, st_.omega_touched, st_.kept, st_.sibling, st_.nsibling = 0, [], 0, False, [], None, 0
         for op in spec['trace']:
             if op['op'] == 'resolve' and not can_resolve(st_):
                 continue
